@@ -58,6 +58,34 @@ def stamp(obj, decimals=None) -> str:
     return h.hexdigest()[:16]
 
 
+class MemoDynsys:
+    """While active, `rtbp_dynsys / variational_dynsys / jacobian_dynsys` as seen by the system
+    service are memoised by (mu, name).  A CR3BP vector field is a pure function of mu; without this
+    every un-pickled System recompiles its right-hand sides with numba (1.5-5 s per operation after
+    each load).  The service caches under test are not touched."""
+
+    NAMES = ("rtbp_dynsys", "variational_dynsys", "jacobian_dynsys")
+
+    def __enter__(self):
+        import hiten.algorithms.types.services.system as ssys
+        self._mod = ssys
+        self._orig = {n: getattr(ssys, n) for n in self.NAMES}
+        memo = self.memo = {}
+        for n, f in self._orig.items():
+            def g(mu, name=None, _f=f, _n=n):
+                k = (_n, float(mu), name)
+                if k not in memo:
+                    memo[k] = _f(mu) if name is None else _f(mu, name=name)
+                return memo[k]
+            setattr(ssys, n, g)
+        return self
+
+    def __exit__(self, *exc):
+        for n, f in self._orig.items():
+            setattr(self._mod, n, f)
+        return False
+
+
 class CacheRecorder:
     """Wraps _CacheServiceBase.get_or_create / reset / set process-wide while active."""
 
